@@ -16,7 +16,7 @@ import re
 
 MAX_DEPTH = 6
 MAX_BLOCKS = 6000
-BIG = 120
+BIG = 400
 
 
 def _r_place(pl, lb, env):
